@@ -10,6 +10,9 @@ A family / call is plain JSON data (so that replays and the corpus are self-cont
   registered with exclusive=True (no overload carries the key -> all are); overloads are REGISTERED in the
   order of "funs" as well, so permuting "funs" permutes enumeration and registration order together
   a parameter is [name, kind, default] or [name, kind, default, alias] (explicit alias=...)
+  a family may carry "fname": the python-style name of the function (default "f"); the contexts follow the CamelCase
+  convention, the overloads are registered under the converted name, and a call may go through the converted name
+  (call["by"] absent) or through the python-style name with use_convention=True (call["by"] = "python")
   a layer may be a MultiContext / LinkedContext: "shape": "plain"|"multi"|"linked"|"linked-multi" and
   "members": [[fid, ...], ...] (which member context holds which overloads, in member order)
   a kind may also be ["X", combinator class name, [member tags], nullable]: a smart-type COMBINATOR discovered in yaqltypes
@@ -269,11 +272,14 @@ def kind_type(kind, pool=None):
 _glob = {"INST": INST}
 
 
+_fname = ["f"]          # python-style name of the family being built; definitions are registered under its converted form
+
+
 HISTORY_OPS = ["pre_python", "pre_none", "pre_strip", "pre_insert", "post_strip", "post_insert", "post_python", "post_clone"]
 
 
 def _derive(fn, convention):
-    return specs.get_function_definition(fn, name="f", convention=convention)
+    return specs.get_function_definition(fn, name=camel(_fname[0]), convention=convention)
 
 
 def _history_op(op, fn, fd, made):
@@ -397,6 +403,7 @@ def derive_all(family, census=None, history=True):
     """{fid: FunctionDefinition} for the whole family (own callables first, then the re-specifications of them)"""
     shared, pool, out = {}, {}, {}
     funs = [f for l in family["chain"] for f in l["funs"]]
+    _fname[0] = family.get("fname", "f")
     try:
         for f in funs:
             if f.get("payload_of") is None:
@@ -515,10 +522,11 @@ def build_chain(family, census=None, history=True):
         made = {fun["fid"]: made_all[fun["fid"]] for fun in layer["funs"]}
         mctx = []
         for i, mfuns in enumerate(members):
+            conv = conventions.CamelCaseConvention()
             if shape in ("linked", "linked-multi"):
-                m = OrderedContext(None)                # the linked context brings no parent of its own
+                m = OrderedContext(None, convention=conv)     # the linked context brings no parent of its own
             else:
-                m = OrderedContext(parent if (i == 0 or shape == "plain") else None)
+                m = OrderedContext(parent if (i == 0 or shape == "plain") else None, convention=conv)
             mctx.append((m, mfuns))
         where = {f["fid"]: m for m, mfuns in mctx for f in mfuns}
         for fun in layer["funs"]:
@@ -530,7 +538,7 @@ def build_chain(family, census=None, history=True):
             m.order.append(made[fun["fid"]])
             fds[fun["fid"]] = made[fun["fid"]]
         if layer["excl"] and not layer["funs"]:
-            mctx[0][0]._exclusive_funcs.add("f")
+            mctx[0][0]._exclusive_funcs.add(camel(family.get("fname", "f")))
         order = [made[f["fid"]] for f in layer["funs"]]
         if shape == "plain":
             ctx = mctx[0][0]
@@ -545,6 +553,7 @@ def build_chain(family, census=None, history=True):
             ctx = contexts.LinkedContext(parent, inner)
     _FID_OF.clear()
     _FID_OF.update({id(fd): (fid, fd) for fid, fd in fds.items()})
+    ctx._verif_fname = family.get("fname", "f")
     return ctx, fds
 
 
@@ -640,7 +649,11 @@ def _run_call(call, ctx, log, table):
     receiver = py_value(call["recv"]) if has_recv else utils.NO_VALUE
     del _invoked[:]
     try:
-        res = ctx("f", engine(), receiver)(*args, **kwargs)
+        fname = getattr(ctx, "_verif_fname", "f")
+        if call.get("by") == "python":
+            res = ctx(fname, engine(), receiver, use_convention=True)(*args, **kwargs)
+        else:
+            res = ctx(camel(fname), engine(), receiver)(*args, **kwargs)
         obs = canon_result(res, table)
     except Exception as e:
         name = ERR.get((type(e), has_recv))
@@ -648,7 +661,7 @@ def _run_call(call, ctx, log, table):
     return obs, list(log)
 
 
-def call_text(call):
+def call_text(call, fname="f"):
     """the call as YAQL text, or None when the grammar cannot spell it (plain python values, class
     instances as constants, python-level keywords, a named argument before a positional one)"""
     def simple(kind, *rest):
@@ -681,7 +694,7 @@ def call_text(call):
             return None
     if any(t is None for t in pos) or any(t is None for _, t in named):
         return None
-    text = "f(%s)" % ", ".join(pos + ["%s => %s" % nt for nt in named])
+    text = "%s(%s)" % (camel(fname), ", ".join(pos + ["%s => %s" % nt for nt in named]))
     if call["recv"] is not None:
         text = "p(0)." + text
     return text
@@ -976,6 +989,9 @@ def add_variants(rng, chain, next_fid, p=0.3, pool_kind=None):
     return next_fid
 
 
+FAMILY_NAMES = ["f", "f", "my_func", "to_list_", "do_it_now", "g_"]
+
+
 def add_shapes(rng, chain, p_multi=0.3, p_hist=0.25):
     """some layers become MultiContexts / LinkedContexts over member contexts; some overloads get a
     registration history (the same callable derived under another convention, derived definitions modified)"""
@@ -1028,7 +1044,7 @@ def gen_family(rng):
     mark_exclusive(rng, chain)
     add_variants(rng, chain, fid)
     add_shapes(rng, chain)
-    fam = {"chain": chain}
+    fam = {"chain": chain, "fname": rng.choice(FAMILY_NAMES)}
     fam["shape_lazy"] = sorted(shape["lazy"])
     return fam
 
@@ -1137,6 +1153,8 @@ def gen_call(rng, family):
             seen.add(k)
             pk.append([k, v])
     out = {"recv": recv, "args": args, "kwargs": pk}
+    if rng.random() < 0.4:
+        out["by"] = "python"          # looked up by the python-style name with use_convention=True
     if rng.random() < 0.25:
         out["hostile"] = rng.choice(sorted(HOSTILE_PROTOCOLS))      # the argument objects carry a hostile comparison / truthiness protocol
     return out
@@ -1497,7 +1515,7 @@ def gen_family_dense(rng):
         return ["T", r.choice([0, 0, 2, 3, 7, 7, 8]), r.random() < 0.2]
     add_variants(rng, chain, fid, p=0.35, pool_kind=dense_kind)
     add_shapes(rng, chain, p_multi=0.4, p_hist=0.2)
-    return {"chain": chain, "kwname": kwname}
+    return {"chain": chain, "kwname": kwname, "fname": rng.choice(FAMILY_NAMES)}
 
 
 def gen_call_dense(rng, family):
@@ -1525,13 +1543,15 @@ def gen_call_dense(rng, family):
         recv = args[0][2]
         args = args[1:]
     out = {"recv": recv, "args": args, "kwargs": kwargs}
+    if rng.random() < 0.4:
+        out["by"] = "python"
     if rng.random() < 0.2:
         out["hostile"] = rng.choice(sorted(HOSTILE_PROTOCOLS))
     return out
 
 
 def shuffled(rng, family):
-    fam = {"chain": [dict(l, funs=list(l["funs"]), members=list(l.get("members", []))) for l in family["chain"]]}
+    fam = dict(family, chain=[dict(l, funs=list(l["funs"]), members=list(l.get("members", []))) for l in family["chain"]])
     for l in fam["chain"]:
         rng.shuffle(l["funs"])
         rng.shuffle(l["members"])
@@ -1565,13 +1585,13 @@ def layer_orders(rng, family, limit=50):
             (tuple((p[0][0], m) if j == i else p[0] for j, p in enumerate(per_layer))
              for i, l in enumerate(family["chain"]) for m in [list(q) for q in itertools.permutations(l.get("members", []))]))
     for combo in combos:
-        yield {"chain": [dict(l, funs=list(fs), members=list(ms)) for l, (fs, ms) in zip(family["chain"], combo)]}
+        yield dict(family, chain=[dict(l, funs=list(fs), members=list(ms)) for l, (fs, ms) in zip(family["chain"], combo)])
 
 
 def history_variants(family):
     """the same family with other registration histories: none at all, and the heaviest one everywhere"""
     def with_hist(h):
-        return {"chain": [dict(l, funs=[dict(f, history=list(h(f))) for f in l["funs"]]) for l in family["chain"]]}
+        return dict(family, chain=[dict(l, funs=[dict(f, history=list(h(f))) for f in l["funs"]]) for l in family["chain"]])
     yield "no history", with_hist(lambda f: [])
     yield "another convention first, derived definitions modified", with_hist(
         lambda f: ["pre_python", "pre_strip", "post_strip", "post_insert", "post_clone"])
@@ -1634,7 +1654,7 @@ def correspond(run, pairs, what_violation, what_prop, judge=None):
             run.fail("violation", "resolution raised an exception outside the documented error set, or a payload received a foreign object",
                      {"family": family, "call": call, "observed": obs, "log": log})
             continue
-        text = call_text(call)
+        text = call_text(call, family.get("fname", "f"))
         if text is not None:
             r2 = run_call_text(family, call, ctx, text)
             if r2 is not None:
